@@ -100,16 +100,21 @@ def holdsOf (l : Loc) : List Hold :=
   | .c2 | .c4 | .c8 | .c9 | .c10 | .c11 => l.cur :: l.rest
   | .c3 | .c5 | .c6 | .c7 | .c12 => l.rest
   | .cend | .init => []
+  | .g1 | .g2 | .g3 | .g12 | .g13 => []
+  | .g4 | .g5 => [⟨l.m, l.key, .w, false⟩]
+  | .g6 | .g7 | .g8 | .g9 | .g10 | .g11 => [⟨l.m, l.key, .w, l.okcur⟩]
   | _ => l.held
 
 def waitingOf (l : Loc) : Option (Key × Rec × Mode) :=
   match l.pc with
   | .a8 | .a9 => some (l.key, l.m, modeOf l.write)
+  | .g2 | .g3 => some (l.key, l.m, .w)
   | _ => none
 
 def committingOf (l : Loc) : Bool :=
   match l.pc with
   | .c2 | .c3 | .c4 | .c5 | .c6 | .c7 | .c8 | .c9 | .c10 | .c11 | .c12 | .cend => true
+  | .g11 | .g12 | .g13 => l.okcur       -- a mini transaction "commits" (in the tracer) only when it was validated
   | _ => false
 
 /-- the transaction of the protocol model that a thread in local state `l` stands for -/
@@ -124,6 +129,7 @@ def extra (l : Loc) : Option (Rec × Mode) :=
   | .a9 | .a14 => some (l.m, modeOf l.write)
   | .c3 | .c5 | .c12 => some (l.cur.rid, l.cur.mode)
   | .c7 => some (l.cur.rid, .w)
+  | .g3 | .g12 => some (l.m, .w)
   | _ => none
 
 /-- facts about the locals -/
@@ -136,6 +142,8 @@ def Facts (s : Shared) (l : Loc) : Prop :=
     (assoc s.names l.cur.rid = some l.cur.key ∧ ∀ h ∈ l.rest, h.rid ≠ l.cur.rid) ∧ l.cur.mode = .w
   | .c2 | .c3 | .c4 | .c5 | .c6 | .c7 | .c10 | .c11 | .c12 =>
     assoc s.names l.cur.rid = some l.cur.key ∧ ∀ h ∈ l.rest, h.rid ≠ l.cur.rid
+  | .g1 | .g2 | .g3 | .g4 | .g5 | .g6 | .g11 | .g12 | .g13 => assoc s.names l.m = some l.key ∧ l.held = []
+  | .g7 | .g8 | .g9 | .g10 => (assoc s.names l.m = some l.key ∧ l.held = []) ∧ l.okcur = true
   | _ => True
 
 structure ThreadInv (s : Shared) (t : Tid) (l : Loc) : Prop where
